@@ -222,6 +222,9 @@ def _absorb_harness(res, r, case, what, args=()):
             fails.setdefault(p[1], []).append(p[2] if len(p) > 2 else "")
         elif p[0] == "FAILCOUNT":
             counts[p[1]] = int(p[2])
+        elif p[0] == "UNMINIMISED":
+            res.count("failing_inputs_not_minimised", int(p[1]))
+            res.count("failing_inputs", int(p[1]))
         elif p[0] == "SAMPLE":
             samples.append(line[7:])
     for key, n in counts.items():
